@@ -38,7 +38,7 @@ struct C14 : Property
 	{
 		return {"locale.global_comma", "locale.thread_comma", "locale.thread_C_over_global_comma", "outcome.success", "outcome.continue", "outcome.syntax_error", "outcome.depth_error",
 		        "outcome.size_error", "outcome.memory_error", "fault.duplocale_failed", "fault.newlocale_failed", "parse.non_integer_under_comma", "serialize.non_integer_under_comma",
-		        "format.custom_under_comma", "restore_checked_calls", "format.grouping_flag_then_reset", "stale_errno_on_entry"};
+		        "format.custom_under_comma", "restore_checked_calls", "format.grouping_flag_then_reset", "stale_errno_on_entry", "parser_created_under_another_thread_locale"};
 	}
 	std::map<std::string, int64_t> cfg_defaults() const override { return {}; }
 
@@ -85,7 +85,7 @@ struct C14 : Property
 				}
 				op.data = text;
 				static const int stale[] = {0, 0, 0, ENOMEM, EINTR, ERANGE, EINVAL};
-				op.a = {(int64_t)r.below(4), fl[r.below(4)], r.chance(1, 4) ? (int64_t)r.range(1, 5) : 32, (int64_t)r.below(1000), (int64_t)r.below(2), stale[r.below(7)]};
+				op.a = {(int64_t)r.below(4), fl[r.below(4)], r.chance(1, 4) ? (int64_t)r.range(1, 5) : 32, (int64_t)r.below(1000), (int64_t)r.below(4), stale[r.below(7)]};
 				break;
 			}
 			case 4:
@@ -175,7 +175,25 @@ struct C14 : Property
 				if (with_nul)
 					text.push_back('\0');
 				bool nonint = text.find('.') != std::string::npos || text.find('e') != std::string::npos;
-				struct json_tokener *tok = mode == 2 ? nullptr : new_tok(depth, flags);
+				struct json_tokener *tok = nullptr;
+				if (mode != 2)
+				{
+					if (op.arg(4) & 2)
+					{
+						// a long-lived parser: created while the thread was on ANOTHER locale handle than the one in effect at the parse call
+						// (the locale to restore is the one found at the call, not one remembered from construction time)
+						static locale_t scratch = newlocale(LC_ALL_MASK, "C", (locale_t)0);
+						locale_t cur = uselocale((locale_t)0);
+						if (scratch)
+							uselocale(scratch);
+						tok = new_tok(depth, flags);
+						uselocale(cur);
+						if (!is_ref)
+							ctx.probe("parser_created_under_another_thread_locale");
+					}
+					else
+						tok = new_tok(depth, flags);
+				}
 				Snapshot before = snap();
 				arm_faults(op, ctx);
 				int last_err = 0;
